@@ -774,6 +774,8 @@ def reference(spec, inp):
                 elif kind == "dcf" and secs:
                     # a default config file is loaded on its own with the single-subcommand rule: it selects its first section
                     explicit.append((krank, 0, len(base), secs[0]))
+                    if any(len(base) <= k for k in env_named_at):
+                        hints[("choice", path)] = F_ENVNAME
                 for n in secs:
                     settings.setdefault(n, set()).add(idx)
             if explicit:
@@ -799,7 +801,7 @@ def reference(spec, inp):
         if chosen is None:
             checks.append((path, vals, sub["dest"], None, names))
             if sub["required"]:
-                return ("error", ".".join(path + (sub["dest"],)), notes)
+                return ("error", ".".join(path + (sub["dest"],)), notes, hints)
             return ("ok", checks, notes, hints)
         if isinstance(chosen, set):
             checks.append((path, vals, sub["dest"], chosen, names))
@@ -879,13 +881,15 @@ def judge(spec, inp, res):
         return devs, ref
     early = F_EARLY if early_selection_possible(spec, inp) else None
     leak = F_LEAK if leak_possible(spec, inp) else None
+    # a choice made by a lower source that the environment-named-subcommand defect resets: everything below is affected
+    chint = next((v for k, v in ref[3].items() if isinstance(k, tuple) and k and k[0] == "choice"), None)
     if ref[0] == "error-any":
         if "ok" in res:
             devs.append(("%r is given a value that is not a subcommand name but the parse succeeds" % ref[1], ref[3].get("bad-name")))
         return devs, ref
     if ref[0] == "error":
         if "ok" in res:
-            devs.append(("no subcommand can be determined for required %r but the parse succeeds" % ref[1], None))
+            devs.append(("no subcommand can be determined for required %r but the parse succeeds" % ref[1], chint or leak))
         elif res.get("err") not in ("nosub", "reqkey"):
             devs.append(("undeterminable required subcommand: failure is not the subcommand error (%s)" % json.dumps(res)[:160], leak))
         return devs, ref
@@ -893,8 +897,8 @@ def judge(spec, inp, res):
         return devs, ref   # the walk stopped at a level where the rule admits several subcommands; a deeper required one may be missing
     if "ok" not in res:
         fid = leak
-        if res.get("err") in ("nosub", "reqkey") and any(isinstance(k, tuple) and k and k[0] == "choice" for k in ref[3]):
-            fid = F_ENVNAME
+        if res.get("err") in ("nosub", "reqkey") and chint:
+            fid = chint
         if res.get("err") in ("nosub", "reqkey") and early:
             fid = early
         devs.append(("the reference selects a subcommand at every level but the parse fails: %s" % json.dumps(res)[:200], fid))
@@ -919,7 +923,7 @@ def judge(spec, inp, res):
         got = sect.get(dest)
         if chosen is None:
             if got is not None:
-                devs.append(("no subcommand determinable at %s but %s=%r" % (where, dest, got), early))
+                devs.append(("no subcommand determinable at %s but %s=%r" % (where, dest, got), chint or early or leak))
                 break
             present = [n for n in names if n in sect]
             if present:
@@ -927,7 +931,7 @@ def judge(spec, inp, res):
             continue
         adm = chosen if isinstance(chosen, set) else {chosen}
         if got not in adm:
-            devs.append(("selected subcommand at %s is %r, the rule gives %s" % (where, got, sorted(adm)), ref[3].get(("choice", path)) or early))
+            devs.append(("selected subcommand at %s is %r, the rule gives %s" % (where, got, sorted(adm)), ref[3].get(("choice", path)) or chint or early or leak))
             break
         others = [n for n in names if n != got and n in sect and sect[n] is not None]
         if others:
